@@ -25,6 +25,11 @@ type StructV struct {
 type TupleV []Val
 
 // ElemPtr is a pointer to a struct element of a slice (&s[i]): the element lives in the per-field element heaps.
+type paramSlice struct {
+	t   Term
+	key string
+}
+
 type ElemPtr struct {
 	Elem types.Type // struct type of the element
 	Key  string     // element heap key prefix (E:<type>)
@@ -174,6 +179,7 @@ type VC struct {
 	heapDef       map[string]heapStore // structure of named heaps (single-cell stores, fresh arrays)
 	freshRefs     map[string]bool      // identities returned by allocRef (pairwise distinct)
 	oldVals       map[string]bool      // slice-valued parameters (their arrays were allocated before the call)
+	paramSlices   []paramSlice         // the same, with their element heap (frame facts are instantiated for them)
 	subFuncs      []string             // embedded-struct identity functions declared so far
 	addrTaken     map[*types.Var]bool  // local scalar/slice variables whose address is taken somewhere: boxed at declaration
 }
